@@ -470,8 +470,17 @@ func (s *Sim) Quiesce() {
 	r := subRng(s.Seed, "quiesce")
 	s.rngSched = r
 	rounds := s.W.Cfg.QuiesceRounds
+	if s.W.Cfg.SaneOnly {
+		s.clearHolds(r)
+	}
 	for i := 1; i <= rounds; i++ {
 		s.step++
+		if s.W.Cfg.EndCanary != "" {
+			s.endCanaries(i)
+		}
+		if s.QuiesceHook != nil {
+			s.QuiesceHook(i)
+		}
 		s.Round(r)
 		for _, m := range s.Monitors {
 			m.RoundEnd(s, i)
@@ -487,3 +496,59 @@ func (s *Sim) Quiesce() {
 }
 
 func (s *Sim) String() string { return fmt.Sprintf("sim(seed=%d)", s.Seed) }
+
+// clearHolds: the user lifts every pause/freeze before the quiesce phase (C02's premise).
+func (s *Sim) clearHolds(r *rand.Rand) {
+	for _, e := range s.Store.EDSs() {
+		for _, k := range []string{edsv1.ExtendedDaemonSetRollingUpdatePausedAnnotationKey, edsv1.ExtendedDaemonSetRolloutFrozenAnnotationKey, edsv1.ExtendedDaemonSetCanaryPausedAnnotationKey} {
+			if _, ok := e.Annotations[k]; ok {
+				if r.IntN(2) == 0 {
+					s.userAnnotate(e.Namespace, e.Name, k, "false")
+				} else {
+					s.userAnnotate(e.Namespace, e.Name, k, "-")
+				}
+			}
+		}
+	}
+}
+
+// endCanaries ends a canary that is still in progress in one of the legal ways.
+func (s *Sim) endCanaries(round int) {
+	mode := s.W.Cfg.EndCanary
+	for _, e := range s.Store.EDSs() {
+		if e.Spec.Strategy.Canary == nil {
+			continue
+		}
+		if l, _ := s.liveLetter(e); l != "" {
+			continue
+		}
+		if e.Status.Canary == nil || round > 4 {
+			// the canary cannot start (e.g. not enough valid nodes) or did not end: the user
+			// validates the replica set of spec.template by annotation, the documented
+			// manual override
+			if round >= 2 && mode != "hold" {
+				for _, r := range s.Store.ERSs() {
+					if r.Namespace == e.Namespace && ownerUID(&r.ObjectMeta, "ExtendedDaemonSet") == string(e.UID) && letterOfTpl(&r.Spec.Template) == letterOfTpl(&e.Spec.Template) {
+						s.userAnnotate(e.Namespace, e.Name, edsv1.ExtendedDaemonSetCanaryValidAnnotationKey, r.Name)
+					}
+				}
+			}
+			continue
+		}
+		key := types.NamespacedName{Namespace: e.Namespace, Name: e.Name}
+		can := e.Spec.Strategy.Canary
+		switch {
+		case mode == "hold":
+		case mode == "fail":
+			s.RunCLI("canary-fail", key)
+		case mode == "wait" && can.Duration != nil && round <= 3:
+			d := can.Duration.Duration
+			if can.NoRestartsDuration != nil && can.NoRestartsDuration.Duration > d {
+				d = can.NoRestartsDuration.Duration
+			}
+			s.Advance(d + 2*time.Second)
+		default:
+			s.RunCLI("canary-validate", key)
+		}
+	}
+}
